@@ -7,6 +7,7 @@ import AnyTLS.Drv.Dest
 import AnyTLS.Drv.Push
 import AnyTLS.Drv.Open
 import AnyTLS.Drv.Pool
+import AnyTLS.Drv.Hb
 
 open AnyTLS.Drv
 
@@ -106,6 +107,7 @@ def dispatch (st : DrvState) (line : String) : DrvState × String :=
   | "push" :: rest => pushLine st rest
   | "open" :: rest => openLine st rest
   | "pool" :: rest => poolLine st rest
+  | "hb" :: rest => (st, hbOp rest)
   | "e2e" :: rest => (st, e2eLine rest)
   | "dest" :: rest => (st, destOp rest)
   | "dns" :: rest => let (c, o) := dnsOp st.dns rest; ({ st with dns := c }, o)
